@@ -271,9 +271,132 @@ def kf_cases(ctx, n):
             yield make_case(t, None, rng, "kf", "unique_before_column", ["c2"])
 
 
+SORT_WORD_NAMES = ["desc", "asc", "Desc", "ASC", '"desc"', "`asc`", "[desc]", "descr", "asc_"]
+
+
+def sortword_cases(ctx, n):
+    """columns literally called desc / asc (a usual short form of 'description') inside UNIQUE clauses: a sort direction is a keyword
+    only in key and index lists; the pinned tree keeps these names as the columns they are (calibrated)"""
+    rng = ctx.rng
+    for i in range(n):
+        cols = base_cols(4)
+        picked = rng.sample(SORT_WORD_NAMES, rng.randint(1, 2))
+        idx = rng.sample(range(1, 4), len(picked))
+        for j, nm in zip(idx, picked):
+            cols[j]["name"] = nm
+        names = [c["name"] for c in cols]
+        clauses = []
+        for k in range(rng.randint(1, 2)):
+            m = rng.randint(2, 4)
+            cs = rng.sample(names, m)
+            if not set(cs) & set(picked):
+                cs[rng.randrange(m)] = picked[0]
+                if len(set(cs)) != len(cs):
+                    continue
+            clauses.append({"kind": "unique", "cols": cs, "name": rng.choice([None, "uq_%d" % k])})
+        if not clauses:
+            continue
+        t = {"schema": None, "name": "t", "prefix": "plain", "items": [("col", c) for c in cols] + [("clause", cl) for cl in clauses]}
+        yield make_case(t, rng.choice([None, "multiline", {"case": "lower"}]), rng, "sortword")
+
+
+SHARED_NAMES = ["id", "email", "tenant", "code", "owner_id", "note"]
+
+
+def script_cases(ctx, n):
+    """2..4 tables in ONE script whose columns share names: what one table declares about 'email' says nothing about the column
+    'email' of the next table.  Every table is compared with its own expectation."""
+    rng = ctx.rng
+    for i in range(n):
+        tables = []
+        for k in range(rng.randint(2, 4)):
+            names = rng.sample(SHARED_NAMES, rng.randint(2, 5))
+            cols = []
+            has_pk = False
+            for nm in names:
+                kinds = [x for x in ["null", "default", "pk", "unique", "ref", "check"] if not (x == "pk" and has_pk)]
+                rng.shuffle(kinds)
+                opts = [S.gen_opt(rng, kd, nm) for kd in kinds[:rng.choice([0, 0, 0, 1, 1, 2])]]
+                has_pk = has_pk or any(o["k"] == "pk" for o in opts)
+                cols.append(S.make_column(nm, rng.choice(S.CORE_TYPES[:12]), opts))
+            t = {"schema": rng.choice([None, None, "s1"]), "name": "mt%d" % k, "prefix": "plain", "items": [("col", c) for c in cols]}
+            S.add_clauses(rng, t, has_pk, max_clauses=3, position="end")
+            tables.append(t)
+        parts = []
+        for t in tables:
+            parts.append(multiline_table(S.table_head_tokens(t), S.table_item_tokens(t), []) if rng.random() < 0.5 else render(S.table_tokens(t)))
+        yield {"gen": "script", "ddl": finish_script(parts), "expected_tables": [S.table_expect(t) for t in tables]}
+
+
+def check_script(ctx, case):
+    ctx.evaluated()
+    ctx.nontrivial_case(digest(case["ddl"]))
+    r = parse(case["ddl"])
+    if r[0] == "exc":
+        ctx.violation("script:exception", case, {"exception": r[1], "message": r[2]})
+        return
+    ents = entities(r[1])
+    exps = case["expected_tables"]
+    if len(ents) != len(exps):
+        ctx.violation("script:table_count", case, {"observed": len(ents), "expected": len(exps)})
+        return
+    for k, (ent, exp) in enumerate(zip(ents, exps)):
+        errs = S.compare_table(ent, exp)
+        if errs:
+            first = errs[0][0]
+            what = first.split(" ")[0] + ("." + first.split(".")[-1] if first.startswith("column ") else "")
+            ctx.violation("script:" + what, case, {"table_index": k, "table": exp["table_name"], "diffs": [(w, short(o, 300), short(x, 300)) for w, o, x in errs[:5]]})
+        ctx.obs["script_tables_compared"] += 1
+        ctx.obs["uniques_checked"] += len(exp["constraints"].get("uniques", [])) + sum(1 for c in exp["columns"] if c["unique"])
+        ctx.obs["fk_checked"] += len(exp["constraints"].get("references", [])) + sum(1 for c in exp["columns"] if c["references"])
+
+
+def rename_cases(ctx, n):
+    """CREATE TABLE with (named) foreign keys whose REFERENCED column is called like a column of the table itself, followed by
+    ALTER TABLE .. RENAME COLUMN of that own column: the foreign keys keep pointing at the referenced table's column as written."""
+    rng = ctx.rng
+    for i in range(n):
+        own = rng.choice(["id", "Id", "code", '"id"', "k"])
+        refcol = rng.choice([own, own, own.strip('"').upper(), own.strip('"').lower()])
+        cols = base_cols(4)
+        cols[0]["name"] = own
+        if rng.random() < 0.5:
+            cols[0]["opts"] = [{"k": "pk"}]
+        items = [("col", c) for c in cols]
+        clauses = []
+        fk_cols = rng.sample(["c1", "c2", "c3"], rng.randint(1, 3))
+        for j, c in enumerate(fk_cols):
+            if rng.random() < 0.35:
+                for kind, it in items:
+                    if it["name"] == c:
+                        it["opts"] = [{"k": "ref", "table": "parent%d" % j, "schema": rng.choice([None, "s"]), "column": refcol, "on_delete": rng.choice(S.ACTIONS[:3]), "on_update": None}]
+            else:
+                clauses.append({"kind": "fk", "cols": [c], "name": rng.choice(["fk_%d" % j, "fk_%d" % j, None]), "ref_schema": rng.choice([None, "s"]), "ref_table": "parent%d" % j,
+                                "ref_cols": [refcol], "on_delete": rng.choice(S.ACTIONS[:3]), "on_update": rng.choice(S.ACTIONS[:3])})
+        t = {"schema": rng.choice([None, "app"]), "name": "orders", "prefix": "plain", "items": items + [("clause", cl) for cl in clauses]}
+        new = rng.choice(["order_id", "OrderId", "pk1"])
+        exp = S.table_expect(t)
+        for c in exp["columns"]:
+            if c["name"] == own:
+                c["name"] = new
+        exp["primary_key"] = [new if x == own else x for x in exp["primary_key"]]
+        from vf.gen.render import I, K, P, dotted
+        alter = render(K("ALTER TABLE") + dotted(t.get("schema"), t["name"]) + K("RENAME COLUMN") + I(own) + K("TO") + I(new) + P(";"))
+        yield {"gen": "rename", "ddl": finish_script([render(S.table_tokens(t)), alter]), "expected": exp, "feature": None, "feature_cols": []}
+
+
 def run_shard(ctx):
     install_contracts()
     rng = ctx.rng
+    for case in sortword_cases(ctx, ctx.budget(200, 3000)):
+        check_case(ctx, case)
+        ctx.obs["sort_word_column_cases"] += 1
+    for case in script_cases(ctx, ctx.budget(300, 6000)):
+        check_script(ctx, case)
+        ctx.obs["multi_table_scripts"] += 1
+    for case in rename_cases(ctx, ctx.budget(200, 3000)):
+        check_case(ctx, case)
+        ctx.obs["rename_next_to_fk_cases"] += 1
     for case in exhaustive_cases(ctx):
         check_case(ctx, case)
         ctx.obs["exhaustive_cases"] += 1
